@@ -7,9 +7,9 @@ ID = "C04"
 OWN = ("path", "point", "extra", "reject", "rowcount")
 
 PATH = ["x_le", "x_vec_ge", "xu_between", "u_between", "t_eq", "xt_le", "pc_le", "vc_ge", "pg_le", "dt_le",
-        "next", "prev", "off2", "offm2", "next_u"]
+        "next", "prev", "off2", "offm2", "next_u", "next_pc", "next_pcq", "z_le"]
 POINT = ["bc0", "bcf", "bc_mixed", "periodic", "bcT", "vg_le", "intq"]
-OFFS = ("next", "prev", "off2", "offm2", "next_u")
+OFFS = ("next", "prev", "off2", "offm2", "next_u", "next_pc", "next_pcq")
 
 DIMS = dict(
     con=["x_le"] + PATH[1:] + POINT,
@@ -45,6 +45,10 @@ def finish(a):
     if con == "pc_le" and not kw["pc"]: kw["pc"] = "control"
     if con == "vc_ge" and not kw["vc"]: kw["vc"] = "control"
     if con == "pg_le": kw["pg"] = "scalar"
+    if con == "next_pc" and not kw["pc"]: kw["pc"] = "control"
+    if con == "next_pcq": kw["pc"] = "both"
+    if con == "z_le":
+        kw["alg"] = True; kw["method"] = "DC"
     if con == "vg_le": kw["vg"] = True
     d = P.case(**kw)
     cons = [P.con(con, grid=cg, include_first=inf, include_last=inl)]
@@ -53,7 +57,7 @@ def finish(a):
     elif sec != "none":
         cons.append(P.con(sec))
     d["cons"] = cons
-    d["obj"] = ["mayer_tf", "integral"]
+    d["obj"] = ["mayer_tf", "integral"] + (["int_z"] if d["alg"] else [])
     return d
 
 
@@ -113,4 +117,4 @@ def describe(tier):
         rule="deviation-bounded enumeration over constraint form x grid option x include_first/last x second constraint x method/N/M/degree/grid/horizon (%d dims) plus the full constraint-dimension sub-product; canonical rows (equalities up to sign, inequalities as sense-preserving slacks incl. bounds) matched as multisets against the placement rule of the statement; unexplained real rows that are not pure time rows are violations; unplaceable constraints must raise; distinct = digest of row fingerprints" % len(DIMS),
         bound="k<=%d deviations + constraint sub-product" % (3 if tier == "thorough" else 2),
         assumptions=["CasADi Function evaluation and Opti bookkeeping are trusted", "generic-point alphabet for the numeric quantifier",
-                     "offset operands are only enumerated on the control grid; algebraic values only on integrator_roots (the statement does not pin the others)"])
+                     "offset operands are only enumerated on the control grid; an algebraic value off the collocation points is the value of the polynomial through the step's collocation values (the definition C07 checks for sampling)"])
